@@ -646,3 +646,176 @@ def zero_rule(repo: Repo, rep, prop: str, rule: str):
                 probs += zero_as_missing(repo, fi)
     rep.check(not probs, rule, '%s:zero-is-a-value' % '+'.join(MEMO_SCOPE[prop]), '', '%d functions, no truth test of such a field' % n_f,
               '; '.join(sorted(set(probs))[:6]))
+
+
+# --------------------------------------------------------------------------- in-memory streams created over initial content
+
+STREAM_CTORS = ('BytesIO', 'io.BytesIO', 'six.BytesIO', 'cStringIO', 'StringIO', 'io.StringIO', 'six.StringIO', 'six.moves.cStringIO',
+                'filebase.DicomBytesIO', 'DicomBytesIO')
+_SEEK_END = ('2', 'os.SEEK_END', 'io.SEEK_END', 'SEEK_END')
+
+
+def _stream_ctor_with_content(e, fi: FuncInfo) -> bool:
+    """``BytesIO(x)`` (any spelling the package imports) with initial content x other than the empty literal"""
+    if not (isinstance(e, ast.Call) and e.args and not e.keywords):
+        return False
+    name = ast.unparse(e.func)
+    if name not in STREAM_CTORS and name.rsplit('.', 1)[-1] not in ('BytesIO', 'cStringIO', 'StringIO', 'DicomBytesIO'):
+        return False
+    a = e.args[0]
+    return not (isinstance(a, ast.Constant) and a.value in (b'', ''))
+
+
+def stream_overwrite_problems(repo: Repo, funcs: Iterable[FuncInfo]) -> Tuple[List[str], int]:
+    """An in-memory stream created over initial content (``BytesIO(first)``) is positioned at offset 0: the next ``write()``
+    overwrites that content instead of following it.  Collecting further bytes in such a stream is right only after
+    ``seek(0, 2)``.  For every place (attribute of self, local) that is bound to such a stream -- directly, or as the result of
+    a function that returns one -- every ``write`` / ``writelines`` on that place -- directly, through a local bound to an
+    expression that may evaluate to it (``sink = a or b``), or by passing it to a function that writes to that parameter --
+    anywhere in the given functions must come after a seek to the end made where the stream is created.
+    -> (problems, number of creation sites with content examined)"""
+    from .srcmodel import FuncRef, NotConst
+    funcs = list(funcs)
+    created: Dict[str, Tuple[FuncInfo, ast.AST, bool]] = {}
+    n_sites = 0
+
+    def blocks(node):
+        for n in ast.walk(node):
+            for fld in ('body', 'orelse', 'finalbody'):
+                b = getattr(n, fld, None)
+                if isinstance(b, list) and b and isinstance(b[0], ast.stmt):
+                    yield b
+
+    def callee(call, fi) -> Optional[FuncInfo]:
+        try:
+            r = repo.resolve_expr(call.func, fi.module, fi.cls)
+        except (NotConst, Exception):
+            return None
+        if isinstance(r, FuncRef):
+            try:
+                return repo.func(r.module, r.qualname)
+            except Exception:
+                return None
+        return None
+
+    def seek_end_follows(body, i, place) -> bool:
+        for later in body[i + 1:]:
+            if isinstance(later, ast.Expr) and isinstance(later.value, ast.Call) and isinstance(later.value.func, ast.Attribute) \
+                    and later.value.func.attr == 'seek' and ast.unparse(later.value.func.value) == place \
+                    and len(later.value.args) == 2 and ast.unparse(later.value.args[1]) in _SEEK_END \
+                    and isinstance(later.value.args[0], ast.Constant) and later.value.args[0].value == 0:
+                return True
+            if any(isinstance(n, ast.Call) and isinstance(n.func, ast.Attribute) and n.func.attr in ('write', 'writelines')
+                   and ast.unparse(n.func.value) == place for n in ast.walk(later)):
+                return False
+            if isinstance(later, ast.Return):
+                return False
+        return False
+    _ret_cache: Dict[str, Optional[ast.AST]] = {}
+
+    def returns_content_stream(f: FuncInfo) -> Optional[ast.AST]:
+        """the creation expression, when some path of f returns a stream created over content and not moved to its end"""
+        if f.key in _ret_cache:
+            return _ret_cache[f.key]
+        _ret_cache[f.key] = None
+        out = None
+        for body in blocks(f.node):
+            for i, st in enumerate(body):
+                if isinstance(st, ast.Return) and st.value is not None and _stream_ctor_with_content(st.value, f):
+                    out = st.value
+                if isinstance(st, ast.Assign) and len(st.targets) == 1 and isinstance(st.targets[0], ast.Name) \
+                        and _stream_ctor_with_content(st.value, f) and not seek_end_follows(body, i, st.targets[0].id):
+                    nm = st.targets[0].id
+                    if any(isinstance(r, ast.Return) and isinstance(r.value, ast.Name) and r.value.id == nm for r in ast.walk(f.node)):
+                        out = st.value
+        _ret_cache[f.key] = out
+        return out
+
+    def plain_writes(f: FuncInfo):
+        """(call node, receiver text) of every write()/writelines() in f that is not made right after moving the same
+        receiver to its end (``x.seek(0, 2); x.write(b)`` appends whatever the position was)"""
+        appending = set()
+        for body in blocks(f.node):
+            at_end = set()
+            for st in body:
+                calls = [n for n in ast.walk(st) if isinstance(n, ast.Call) and isinstance(n.func, ast.Attribute)]
+                for n in calls:
+                    recv = ast.unparse(n.func.value)
+                    if n.func.attr == 'seek' and len(n.args) == 2 and ast.unparse(n.args[1]) in _SEEK_END \
+                            and isinstance(n.args[0], ast.Constant) and n.args[0].value == 0 and isinstance(st, ast.Expr) and st.value is n:
+                        at_end.add(recv)
+                    elif n.func.attr in ('write', 'writelines'):
+                        if recv in at_end and isinstance(st, ast.Expr) and st.value is n:
+                            appending.add(id(n))      # the position is at the end again after an appending write
+                        else:
+                            at_end.discard(recv)
+                    elif n.func.attr in ('seek', 'read', 'readline', 'truncate', 'readinto'):
+                        at_end.discard(recv)
+                if not isinstance(st, ast.Expr):
+                    at_end = {r for r in at_end if not any(isinstance(n, (ast.Call,)) and r in ast.unparse(n) for n in ast.walk(st))}
+        for n in ast.walk(f.node):
+            if isinstance(n, ast.Call) and isinstance(n.func, ast.Attribute) and n.func.attr in ('write', 'writelines') \
+                    and id(n) not in appending:
+                yield n, ast.unparse(n.func.value)
+
+    def written_params(f: FuncInfo) -> Set[int]:
+        out = set()
+        params = [p for p in f.params if p not in ('self', 'cls')]
+        for n, recv in plain_writes(f):
+            if recv in params:
+                out.add(params.index(recv))
+        return out
+    for fi in funcs:
+        for body in blocks(fi.node):
+            for i, st in enumerate(body):
+                if not (isinstance(st, ast.Assign) and len(st.targets) == 1):
+                    continue
+                how = None
+                if _stream_ctor_with_content(st.value, fi):
+                    how = st.value
+                elif isinstance(st.value, ast.Call):
+                    cf = callee(st.value, fi)
+                    if cf is not None and cf.key != fi.key:
+                        how = returns_content_stream(cf)
+                if how is None:
+                    continue
+                place = ast.unparse(st.targets[0])
+                n_sites += 1
+                if not seek_end_follows(body, i, place):
+                    created.setdefault(place, (fi, st, how))
+    probs = []
+    for place, (cfi, cst, how) in sorted(created.items()):
+        is_attr = place.startswith('self.')
+        for fi in funcs:
+            if not is_attr and fi is not cfi:
+                continue
+            if is_attr and (fi.cls is None or cfi.cls is None or fi.cls.key != cfi.cls.key):
+                continue
+            aliases = {place}
+            for n in ast.walk(fi.node):
+                if isinstance(n, ast.Assign) and len(n.targets) == 1 and isinstance(n.targets[0], ast.Name) \
+                        and isinstance(n.value, (ast.BoolOp, ast.IfExp, ast.Attribute, ast.Name)):
+                    leaves = n.value.values if isinstance(n.value, ast.BoolOp) else \
+                        [n.value.body, n.value.orelse] if isinstance(n.value, ast.IfExp) else [n.value]
+                    if any(ast.unparse(l_) == place for l_ in leaves):
+                        aliases.add(n.targets[0].id)
+            direct = {id(n_) for n_, recv_ in plain_writes(fi) if recv_ in aliases}
+            for n in ast.walk(fi.node):
+                if not isinstance(n, ast.Call):
+                    continue
+                hit = None
+                if id(n) in direct:
+                    hit = '%s() at line %d (%s)' % (n.func.attr, n.lineno, fi.qualname)
+                elif isinstance(n.func, ast.Attribute) and n.func.attr in ('write', 'writelines'):
+                    continue
+                else:
+                    idx = [k for k, a in enumerate(n.args) if ast.unparse(a) in aliases]
+                    if idx:
+                        cf = callee(n, fi)
+                        if cf is not None and set(idx) & written_params(cf):
+                            hit = 'the write in %s, which it is passed to at line %d (%s)' % (cf.qualname, n.lineno, fi.qualname)
+                if hit:
+                    probs.append('%s: %s holds a stream created over its first content (%s) and still positioned at offset 0; %s '
+                                 'overwrites that content instead of following it -- seek(0, 2) after creating it, or create it '
+                                 'empty and write the first content' % (cfi.qualname, place, ast.unparse(how)[:60], hit))
+    return sorted(set(probs)), n_sites
